@@ -137,8 +137,9 @@ def generate(rng: random.Random, cons: dict) -> dict:
     elif w["ids"] == "adopted":
         w["ids"] = "computed"
     # ---- custom static features on a subset of elements
-    w["score"] = {str(n): round(rng.random(), 3) for n in ids if rng.random() < 0.6}
-    w["conf"] = {f"{u},{v}": round(rng.random(), 3) for u, v in edges if rng.random() < 0.6}
+    # falsy values (0.0) on purpose: "if val:" instead of "if val is not None:" is a classic
+    w["score"] = {str(n): rng.choice([0.0, round(rng.random(), 3), round(rng.random(), 3)]) for n in ids if rng.random() < 0.6}
+    w["conf"] = {f"{u},{v}": rng.choice([0.0, round(rng.random(), 3), round(rng.random(), 3)]) for u, v in edges if rng.random() < 0.6}
     # ---- initially enabled optional features
     enable = []
     fm = cons.get("feats", "any")
